@@ -293,6 +293,30 @@ class DefUse:
     def args_in(atoms):
         return {a[1] for a in atoms if a[0] == 'arg'}
 
+    def roots_of(self, l, depth=0):
+        """like root_of, but a local assigned in several places (`let x = if c { a } else { b }`) yields all its sources"""
+        r = self.root_of(l)
+        ds = self.defs.get(r, [])
+        if len(ds) <= 1 or depth > 4:
+            return {r}
+        out = set()
+        for bb, si in ds:
+            if si is None:
+                return {r}
+            s = self.fn.blocks[bb]['stmts'][si]
+            if s['p']['pr']:
+                return {r}
+            if s['rv']['k'] == 'use' and op_place(s['rv']['op']) is not None:
+                p = op_place(s['rv']['op'])
+            elif s['rv']['k'] in ('ref', 'rawptr'):
+                p = s['rv']['p']
+            else:
+                return {r}
+            if p['pr'] and not all(e['k'] == 'deref' for e in p['pr']):
+                return {r}
+            out |= self.roots_of(p['l'], depth + 1)
+        return out
+
     def root_of(self, l, depth=0, through_calls=True):
         """follow single-definition copies / moves / reborrows / unwrap-like identity calls back to a root local"""
         seen = set()
